@@ -159,6 +159,49 @@ func probeOne(a oneArg) (string, string) {
 
 func setupOne(a oneArg) { setLimits(a.Limit) }
 
+// ---- the same input twice with the limit changed in between
+type limChangeArg struct {
+	Entry  int    `json:"entry"`
+	Name   string `json:"entry_name"`
+	In     mc.Bin `json:"in"`
+	First  int    `json:"first_limit"`  // absolute MaxInputLength values
+	Second int    `json:"second_limit"`
+}
+
+func setAbs(pkg string, v int) {
+	switch pkg {
+	case "date":
+		date.MaxInputLength = v
+	case "roman":
+		roman.MaxInputLength = v
+	case "sem":
+		sem.MaxInputLength = v
+	case "size":
+		size.MaxInputLength = v
+	case "uu":
+		uu.MaxInputLength = v
+	}
+}
+
+func probeLimChange(a limChangeArg) (string, string) {
+	defer reset()
+	e := entries[a.Entry]
+	rule := e.rules[0]
+	if e.name == "size.DefaultParser" {
+		rule = 6
+	}
+	setAbs(e.pkg, a.First)
+	_ = e.call([]byte(a.In), rule)
+	setAbs(e.pkg, a.Second)
+	err := e.call([]byte(a.In), rule)
+	is := err != nil && errors.Is(err, tooLong[e.pkg])
+	over := a.Second != 0 && len(a.In) > a.Second
+	if over != is {
+		return "limit_change_not_honoured", fmt.Sprintf("%s on a %d-byte input: first call with MaxInputLength=%d, second call with MaxInputLength=%d gives %v (too long expected: %v)", e.name, len(a.In), a.First, a.Second, err, over)
+	}
+	return "", ""
+}
+
 // ---- two-input entry points of package sem
 type pairArg struct {
 	Limit int    `json:"limit_mode"`
@@ -222,7 +265,12 @@ type allocArg struct {
 
 func setupAlloc(a allocArg) { setLimits(a.Limit) }
 
+// longInput: fill repeated up to n bytes; a fill starting with 'Q' stands for a JSON string: quote, the rest repeated, quote.
 func longInput(fill string, n int) []byte {
+	if strings.HasPrefix(fill, "Q") && n >= 2 {
+		inner := longInput(fill[1:], n-2)
+		return append(append([]byte{'"'}, inner...), '"')
+	}
 	b := make([]byte, 0, n+len(fill))
 	for len(b) < n {
 		b = append(b, fill...)
@@ -381,6 +429,30 @@ func main() {
 				reset()
 			})
 		}
+		plc := mc.NewProbe(r, "limit_change", nil, probeLimChange)
+		r.Phase("serial: the same valid input parsed twice with MaxInputLength changed in between (0, len-1, len, len+1, default), every limited entry point", "complete for the listed inputs", func() {
+			r.Serial(func(w *mc.W) {
+				for ei, e := range entries {
+					if !e.limited {
+						continue
+					}
+					ins := append([]string{}, valids[e.pkg]...)
+					ins = append(ins, map[string]string{"date": "12022-08-07", "roman": strings.Repeat("M", 130), "sem": "1.0.0-" + strings.Repeat("a", 1030), "size": strings.Repeat("0", 130) + "1", "uu": "urn:uuid:ed7059f3-6fc0-4b0c-9b7a-2ea5a0b4b8f1"}[e.pkg])
+					for _, in := range ins {
+						ls := []int{0, len(in) - 1, len(in), len(in) + 1, defaults[e.pkg], 1}
+						for _, l1 := range ls {
+							for _, l2 := range ls {
+								if l1 < 0 || l2 < 0 {
+									continue
+								}
+								w.Point()
+								plc.Do(w, limChangeArg{ei, e.name, mc.Bin(in), l1, l2})
+							}
+						}
+					}
+				}
+			})
+		})
 		// pairs
 		var pool []string
 		pt := []string{"1", "0", ".", "-", "a", "é", "éé", "x", "\xff", "\x00", "😀", "1.0.0", "v1.0.0", "1.0.0-", "+", "01", "ééé", "éééx", "€"}
@@ -416,7 +488,7 @@ func main() {
 			"date":  {"2", marker, "2024-02-29", "\xff"},
 			"roman": {"M", marker, "I", "\xff", "mcm"},
 			"sem":   {"1", marker, "1.0.0-a.", "v", "\xff", "1.0.0+" + marker},
-			"size":  {"1", marker, "1 ", "{\"x\":[", "\"", "[[[[", "{\"a\":{", " ", "1_", "\xff"},
+			"size":  {"1", marker, "1 ", "{\"x\":[", "\"", "[[[[", "{\"a\":{", " ", "1_", "\xff", "Q\xff", "Q\xc3", "Q\\u0031"},
 			"uu":    {"a", marker, "urn:uuid:", "-", "\xff"},
 		}
 		r.Phase("long runs: per entry point and limit mode, inputs of length limit-1, limit, limit+1, 10 x limit (limit disabled: default+1, 10 x default, 100000) built from valid-shaped and marker fillers; allocation bound", "complete grid (serial)", func() {
